@@ -764,6 +764,38 @@ example : (match (call (D11b.specVar D11b.pNumD) (D11b.staticTf .number) (D11b.i
     | _ => false) = true := by decide
 example : ∀ a ∈ [(⟨.map .number, .marked ["m"] (.smap ["a"] [.n (.fin false 1 0 64)])⟩ : Value)], a.WF (fun _ => true) = true := by decide
 
+/-! ### `merge`: the totality clause is FALSE of the code
+
+Recorded finding `panic-error:does-not-conform:MergeFunc` (known_findings.json; reproduced by the harness on every run):
+the `Type` callback counts the attributes of a NULL object argument into the predicted type, `Impl` skips null
+arguments, so the value `Impl` returns does not conform to the type it was given and `Call` reports an internal panic. -/
+
+/-- `merge`: the full statement -/
+def CallTotalMerge : Prop :=
+  ∀ (nfc : String → Bool) (E : Stdlib.Env) (args : List Value), (∀ a ∈ args, a.WF nfc = true) →
+    (∀ w, (call Stdlib.mergeSpec Stdlib.mergeType (Stdlib.mergeImpl E) args).1 ≠ .panic w) ∧
+    (∀ w, (call Stdlib.mergeSpec Stdlib.mergeType (Stdlib.mergeImpl E) args).1 ≠ .err (.panicError w))
+
+/-- the witness `merge(null object{d = bool})` -/
+def mergeNullArg : List Value := [⟨.object ["d"] [.bool] [false], .null⟩]
+
+theorem call_total_merge_counterexample_witness :
+    (∀ a ∈ mergeNullArg, a.WF (fun _ => true) = true) ∧
+    (match (call Stdlib.mergeSpec Stdlib.mergeType (Stdlib.mergeImpl {}) mergeNullArg).1 with
+      | .err (.panicError _) => true
+      | _ => false) = true := by
+  constructor <;> decide
+
+theorem call_total_merge_counterexample : ¬ CallTotalMerge := fun h => by
+  have h2 := (h (fun _ => true) {} mergeNullArg call_total_merge_counterexample_witness.1).2
+  have hw := call_total_merge_counterexample_witness.2
+  cases hc : (call Stdlib.mergeSpec Stdlib.mergeType (Stdlib.mergeImpl {}) mergeNullArg).1 with
+  | err e =>
+    cases e with
+    | panicError w => exact h2 w hc
+    | _ => rw [hc] at hw; cases hw
+  | _ => rw [hc] at hw; cases hw
+
 /-! ### the hypotheses are satisfiable -/
 
 example : TypeMono (staticType (.list .string)) := static_typeMono _
